@@ -64,22 +64,25 @@ class C05Oracle(BaseOracle):
         return ("s", ecfg["storage"]) if "storage" in ecfg else ("own", k)
 
     def track_storage(self, ctx):
+        """The reference's own model of what each storage has been handed, driven by the OPERATIONS of the schedule
+        (not by what the library's storage objects report): explain_one calls that update their storage, manual
+        update_storage calls, and updates of an explicit storage by another party."""
         w = self.world
-        for ev in ctx.events:
-            if ev[0] == "SU":
-                self.stored.setdefault(("s", ev[1]), []).append(ev[2])
         op = ctx.op
-        if ctx.outcome != "ok" or "e" not in op or op["e"] >= len(w.explainers) or w.explainers[op["e"]] is None:
-            return
-        k = op["e"]
-        ecfg = w.ecfgs[k]
-        if "storage" in ecfg:
+        if ctx.outcome != "ok":
             return
         if op["op"] == "store":
-            self.stored.setdefault(("own", k), []).append(dict(ctx.x))
-        elif op["op"] == "explain":
-            if ecfg["cls"] == "batch" or (ecfg["cls"] == "interval" and op.get("us", True)):
-                self.stored.setdefault(("own", k), []).append(dict(ctx.x_before))
+            if "s" in op:
+                self.stored.setdefault(("s", op["s"]), []).append(dict(ctx.x))
+            elif op["e"] < len(w.explainers) and w.explainers[op["e"]] is not None:
+                self.stored.setdefault(self.store_key(op["e"]), []).append(dict(ctx.x))
+            return
+        if op["op"] != "explain" or "e" not in op or op["e"] >= len(w.explainers) or w.explainers[op["e"]] is None:
+            return
+        k = op["e"]
+        cls = w.ecfgs[k]["cls"]
+        if cls == "batch" or op.get("us", True):
+            self.stored.setdefault(self.store_key(k), []).append(dict(ctx.x_before))
 
     def window(self, k):
         ecfg = self.world.ecfgs[k]
@@ -149,7 +152,7 @@ class C05Oracle(BaseOracle):
         self.probe("sum_checked")
         if got_sum != 0:
             self.probe("sum_nonzero")
-        fz = w.cfg.get("loss", {}).get("family") == "river"     # river reports doubles: judged to rounding
+        fz = w.cfg.get("loss", {}).get("family") in ("river", "bool01")     # doubles / bools: judged to rounding
         if not num_equal(got_sum, want_sum, tol, fz):
             return self.v("sum-vs-mean-explained-loss", "sum(values)=%r expected %r over %d explained rows (%s)"
                           % (got_sum, want_sum, N, "original" if original else "imputer"),
